@@ -257,12 +257,13 @@ where
         let heads = HashMap::<ActorId, CrsqlDbVersion>::read_from(reader)?;
 
         // Read need: HashMap<ActorId, Vec<RangeInclusive<CrsqlDbVersion>>>
+        // (lengths come from the wire: capacities are capped, the loops stop at end of input)
         let need_len = usize::read_from(reader)?;
-        let mut need = HashMap::with_capacity(need_len);
+        let mut need = HashMap::with_capacity(need_len.min(128));
         for _ in 0..need_len {
             let actor_id = ActorId::read_from(reader)?;
             let ranges_len = usize::read_from(reader)?;
-            let mut ranges = Vec::with_capacity(ranges_len);
+            let mut ranges = Vec::with_capacity(ranges_len.min(128));
             for _ in 0..ranges_len {
                 let start = CrsqlDbVersion::read_from(reader)?;
                 let end = CrsqlDbVersion::read_from(reader)?;
@@ -273,15 +274,15 @@ where
 
         // Read partial_need: HashMap<ActorId, HashMap<CrsqlDbVersion, Vec<RangeInclusive<CrsqlSeq>>>>
         let partial_need_len = usize::read_from(reader)?;
-        let mut partial_need = HashMap::with_capacity(partial_need_len);
+        let mut partial_need = HashMap::with_capacity(partial_need_len.min(128));
         for _ in 0..partial_need_len {
             let actor_id = ActorId::read_from(reader)?;
             let versions_len = usize::read_from(reader)?;
-            let mut versions_map = HashMap::with_capacity(versions_len);
+            let mut versions_map = HashMap::with_capacity(versions_len.min(128));
             for _ in 0..versions_len {
                 let version = CrsqlDbVersion::read_from(reader)?;
                 let seq_ranges_len = usize::read_from(reader)?;
-                let mut seq_ranges = Vec::with_capacity(seq_ranges_len);
+                let mut seq_ranges = Vec::with_capacity(seq_ranges_len.min(128));
                 for _ in 0..seq_ranges_len {
                     let start = CrsqlSeq::read_from(reader)?;
                     let end = CrsqlSeq::read_from(reader)?;
@@ -384,7 +385,7 @@ where
             1 => {
                 let version = CrsqlDbVersion::read_from(reader)?;
                 let seqs_len = usize::read_from(reader)?;
-                let mut seqs = Vec::with_capacity(seqs_len);
+                let mut seqs = Vec::with_capacity(seqs_len.min(128));
                 for _ in 0..seqs_len {
                     let start = CrsqlSeq::read_from(reader)?;
                     let end = CrsqlSeq::read_from(reader)?;
@@ -396,13 +397,18 @@ where
                 let ts = Option::<Timestamp>::read_from(reader)?;
                 Ok(SyncNeedV1::Empty { ts })
             }
-            _ => {
-                // Read and discard the invalid tag to avoid issues, then create a proper error
-                let _ = reader.read_u8()?;
-                // This is a bit of a hack but should work for speedy contexts
-                panic!("Invalid SyncNeedV1 variant tag: {}", variant_tag);
-            }
+            _ => Err(speedy::Error::custom(format!(
+                "invalid SyncNeedV1 variant tag: {variant_tag}"
+            ))
+            .into()),
         }
+    }
+
+    // lets speedy reject a collection of needs whose announced length cannot fit the input
+    // (the shortest need is `Empty { ts: None }`: variant tag + option tag)
+    #[inline]
+    fn minimum_bytes_needed() -> usize {
+        2
     }
 }
 
